@@ -17,6 +17,8 @@ def _src_cfgs():
             out.append({"kind": kind, "weights": wk, "nan": kind in ("pandas", "list"), "n": 2})
     out.append({"kind": "pandas", "weights": "pandas", "nan": True, "n": 2})
     out.append({"kind": "polars", "weights": "polars", "nan": False, "n": 2})
+    for kind in ("pandas", "polars", "list"):       # a named container AND an explicit axis_name
+        out.append({"kind": kind, "weights": None, "nan": False, "n": 1, "axis_name": "explicit"})
     return out
 
 
@@ -58,6 +60,8 @@ class _h1_containers:
             nonneg(b, w)
             kw["_warray"] = w
             kw["weights"] = w if c.weights == "float64" else b.series(c.weights, w, "wt")
+        if getattr(c, "axis_name", None):
+            kw["axis_name"] = c.axis_name          # an explicit name takes precedence over the name the container carries
         return kw
 
     def invoke(I, fn, a, cfg):
@@ -84,6 +88,7 @@ class _h1_containers:
     @ensures("axis_name_from_the_series_name")
     def _(a, old, result):
         want = "col" if a._cfg_kind in ("pandas", "polars") else "axis0"
+        want = getattr(a, "_cfg_axis_name", None) or want
         return tuple(attr(result, "_meta_data").get("axis_names") or ("axis0",))[0] == want
 
 
@@ -300,3 +305,67 @@ class _h3:
                 sf = sf + If(cell_pred(old.bins, cell, r), 1, 0)
             cs.append(f[pos] == sf)
         return And(*cs)
+
+
+# ---------------------------------------------------------------------------------------------- conversions (C17, last sentence)
+
+@contract("physt.compat.geant4:_create_h1", props=["C17"], name="physt.compat.geant4:_create_h1")
+class _geant4_h1:
+    """the rows of a Geant4 CSV table (entries, Sw, Sw2, Sxw, Sx2w per bin; first / last row = under / overflow) become the
+    contents, squared errors, under/overflow and statistics of the histogram"""
+    bounded = True
+    bound_note = "geant4: 2 or 3 bins"
+
+    def configs():
+        return [{"m": 2, "axis": "fixed 2 0 2"}, {"m": 3, "axis": "fixed 3 -1.5 1.5"}]
+
+    def inputs(b):
+        d = b.array("d", (b.cfg.m + 2, 5))
+        nonneg(b, d)
+        return dict(data=d, meta=[("title", "T"), ("dimension", "1"), ("axis", b.cfg.axis)])
+
+    @ensures("columns_go_where_they_belong")
+    def _(a, old, result):
+        rows = aslist(old.data)
+        m = a._cfg_m
+        _, _, lo, hi = a._cfg_axis.split()
+        lo, hi = float(lo), float(hi)
+        w = (hi - lo) / m
+        bins = bins_of(attr(result, "_binnings")[0], m)
+        st = attr(result, "_stats")
+        return And(same(F(result), [rows[k][1] for k in range(1, m + 1)]), same(E(result), [rows[k][2] for k in range(1, m + 1)]),
+                   M(result)[0] == rows[0][1], M(result)[1] == rows[m + 1][1],
+                   attr(st, "sum") == total([rows[k][3] for k in range(1, m + 1)]), attr(st, "sum2") == total([rows[k][4] for k in range(1, m + 1)]),
+                   *[And(close(bins[k][0], lo + k * w), close(bins[k][1], lo + (k + 1) * w)) for k in range(m)],
+                   attr(result, "_meta_data").get("name") == "T", same(a.data, old.data))
+
+
+@contract("physt.compat.pandas:index_to_binning", props=["C17"], name="pandas IntervalIndex round trip")
+class _interval_index_roundtrip:
+    """binning -> pandas.IntervalIndex -> binning gives the same bins (gaps included).  pandas.IntervalIndex has no stub: this
+    contract is decided by the cross-check on the real code and the real pandas only (bounded stand-in, never counted as proved)."""
+    bounded = True
+    bound_note = "IntervalIndex round trip: decided by the cross-check on the real code (real pandas) only; <= 3 bins"
+    standin = True
+
+    def configs():
+        return [{"kind": "gapped", "m": 3}, {"kind": "gapped", "m": 2}, {"kind": "static", "m": 2}, {"kind": "fixed", "m": 2}]
+
+    def inputs(b):
+        bn = make_binning(b, "B", b.cfg.kind, b.cfg.m)
+        if b.cfg.kind == "gapped":       # requires: a real gap (the case the conversion must not lose)
+            v = bins_of(bn)
+            b.assume(And(*[v[k][1] + 1 <= v[k + 1][0] for k in range(len(v) - 1)]))
+        return dict(binning=bn)
+
+    def invoke(I, fn, a, cfg):
+        if I is not None:
+            to_index = I.find("physt.compat.pandas:binning_to_index")
+            return I.call(fn, [I.call(to_index, [a.binning], {})], {})
+        from physt.compat.pandas import binning_to_index
+        return fn(binning_to_index(a.binning))
+
+    @ensures("same_bins_after_the_round_trip")
+    def _(a, old, result):
+        v0, v1 = bins_of(old.binning), bins_of(result)
+        return And(len(v0) == len(v1), same([x for p in v0 for x in p], [x for p in v1 for x in p]), same_binning(old.binning, a.binning))
